@@ -156,6 +156,31 @@ def run(P, rep, tier):
     else:
         rep.violation(r3, 'dropped:%s' % ','.join(sorted(map(str, popped))), dr.module.relpath,
                       'the DOM reader removes %s from the stored options' % sorted(map(str, popped)))
+    r3b = rep.rule('C06-R3b', 'the DOM writer re-emits every stored option whatever its value (shared with C05-R8)', reference=5)
+    from sa.props.c05 import reemit_rule
+    reemit_rule(P, D, rep, r3b, dw, remap)
+    r3c = rep.rule('C06-R3c', 'metadata is dumped canonically: indent=4, sort_keys, default separators and ASCII escapes', reference=1)
+    wm = sw.find_method('write_meta')
+    found = False
+    for n in walk_no_nested(wm.node):
+        if isinstance(n, ast.Call) and norm(n.func) == 'json.dumps':
+            found = True
+            kws = {k.arg: k.value for k in n.keywords}
+            bad = []
+            for key, want in (('indent', 4), ('sort_keys', True)):
+                v = kws.get(key)
+                if not (isinstance(v, ast.Constant) and v.value == want):
+                    bad.append('%s=%s' % (key, norm(v) if v is not None else 'absent'))
+            ea = kws.get('ensure_ascii')
+            if ea is not None and not (isinstance(ea, ast.Constant) and ea.value is True):
+                bad.append('ensure_ascii=%s' % norm(ea))
+            if bad:
+                rep.violation(r3c, 'json-dumps-args', wm.loc(n), 'write_meta calls json.dumps with %s: a library-written file is not '
+                              're-serialised to the same bytes (and non-ASCII metadata can fail to encode)' % ', '.join(bad))
+            else:
+                rep.ok(r3c, norm(n)[:70])
+    if not found:
+        rep.violation(r3c, 'no-json-dumps', wm.loc(), 'write_meta no longer serialises with json.dumps')
     # ---- R4 serialising does not change the tree (fixed point needs it) --------------------------------
     r4 = rep.rule('C06-R4', 'to_bytes() leaves the tree unchanged (second serialisation sees the same options)', reference=1)
     from sa.dom import containers
